@@ -5,16 +5,28 @@ from common import sh2
 
 LEVEL = "proof"
 MANIFEST = {
-    "technique": "Coq proof over a hand-written Gallina model of the mp4 sample-table query functions, proved equal to a naive "
-                 "per-sample expansion + differential correspondence (extracted OCaml vs the real Go boxes) + search against an "
-                 "independent reference expansion in the harness",
+    "technique": "Coq proof over a hand-written Gallina model of the mp4 sample-table query functions AND of the table builder methods "
+                 "(state machines over the box state incl. the cache fields), proved equal to a naive per-sample expansion by induction "
+                 "over all tables / all call histories + differential correspondence (extracted OCaml vs the real Go boxes, cache fields "
+                 "compared after every builder call) + search against an independent reference expansion in the harness",
     "level_text": "Theorems (coq/c09/C09Theorems.v): for ALL tables satisfying the boolean predicate `consistent` (no size bound) and "
                   "every sample number / chunk number / interval / time in range, the model of each query function returns what the naive "
-                  "per-sample expansion (coq/c09/C09Spec.v) gives; see the theorem list in the evidence file. The model is tied "
-                  "to /repo on every run: real table boxes are built from generated run-length tables (decode and AddEntry paths) "
-                  "and EVERY query is run on EVERY sample number 0..N+2, every chunk, every interval (small N) and every time; "
-                  "outcome class and value are compared with the extracted model, also on malformed tables.",
+                  "per-sample expansion (coq/c09/C09Spec.v) gives. For ALL histories of builder calls (fold over an unbounded list of "
+                  "calls, from an empty or a decoded box): CttsBox.AddSampleCountsAndOffset leaves exactly the box DecodeCttsSR builds from "
+                  "the concatenated table, EndSampleNr[i] = sum of the first i counts mod 2^32 (C09_builder_ctts, C09_ctts_cache, "
+                  "C09_builder_ctts_query); StscBox.AddEntry / SetSingleSampleDescriptionID leave the closed form of the table the history "
+                  "describes = what DecodeStscSR builds, FirstSampleNr[i] = 1 + samples of the earlier runs (C09_builder_stsc, "
+                  "C09_stsc_cache); boxes built by any histories from consistent file-level tables satisfy `consistent`, so every query "
+                  "theorem applies to API-built tables (C09_builder_consistent). The model is tied to /repo on every run: the real ctts and "
+                  "stsc boxes are built by a random history (empty box or DECODED PREFIX + the remaining rows split into 1-4 builder calls, "
+                  "empty calls, SetSingleSampleDescriptionID over scrambled ids, refused calls in the malformed stream), the plain boxes by "
+                  "struct literal / decoder / CreateSdtpBox; cache fields are compared after every call and EVERY query is run on EVERY "
+                  "sample number 0..N+2, every chunk, every interval (small N) and every time; outcome class and value are compared with the "
+                  "extracted model, also on malformed tables. Explored only (search, not proved): the Go code itself.",
     "level_note": "Trusted: Coq kernel, extraction, OCaml/Go glue, hand transcription checked only differentially. "
+                  "Only ctts and stsc have builder methods or cached state in the pinned library (stts, stsz, stss, sdtp, stco, co64 are "
+                  "public slices: their state IS the table). The unexported singleSampleDescriptionID is observed through "
+                  "GetSampleDescriptionID(0). The builder theorems assume 1-based description ids (known finding C09-F5 otherwise). "
                   "File.CopySampleData (the 'copied sample data' clause) is modelled and proved under C08. "
                   "GetSampleNrAtTime is proved under the extra hypothesis that only a final single sample may have zero duration "
                   "(known finding C09-F3 otherwise).",
@@ -48,6 +60,9 @@ def run(ctx):
     ctx.cov["trusted_base"] = common.TRUSTED_BASE_COMMON + [
         "model: coq/c09/C09Model.v is a hand transcription of the query functions of mp4/stts.go, ctts.go, stsc.go, stsz.go, "
         "stco.go, co64.go, stss.go and TrakBox.GetSampleData / GetRangesForSampleInterval (mp4/trak.go)",
+        "model: coq/c09/C09BuildModel.v folds the transcriptions of CttsBox.AddSampleCountsAndOffset, StscBox.AddEntry and "
+        "SetSingleSampleDescriptionID over a call history; the table a history describes (ctts_table / stsc_table) is checked "
+        "against the generator's table on every valid case",
         "spec: coq/c09/C09Spec.v naive run-length expansion (durs, starts, ctos, sizes, chunk_counts, sample_chunks) and `consistent`",
         "search oracle: harness/c09/tbl Expand (independent per-sample expansion in Go)",
     ]
@@ -56,6 +71,9 @@ def run(ctx):
         "from 1 with samples-per-chunk >= 1, stss strictly increasing in 1..N, sdtp length N, chunk offsets + data size < 2^64)",
         "GetSampleNrAtTime additionally: stts deltas positive except a final single zero-duration sample",
         "sample numbers 1..N, chunk numbers 1..C, intervals 1<=a<=b<=N (behaviour outside is only compared model vs code, not specified)",
+        "builder histories: every sample description id passed to AddEntry / SetSingleSampleDescriptionID is non-zero; the first "
+        "AddEntry of an empty box has firstChunk 1 (refused otherwise: box untouched); C09_builder_consistent additionally asks the "
+        "file-level stsc table for raw_ok (no uint32 wrap) and rows_ok (samples/chunk >= 1, first chunks strictly increasing, <= C)",
     ]
     exe, model = build(ctx)
     pr = ctx.proofs("c09", "C09Theorems.v")
@@ -69,9 +87,15 @@ def run(ctx):
         "tables": len(lines), "valid": sum(1 for l in lines if "\tV\t" in l[:40]),
         "malformed": sum(1 for l in lines if "\tM\t" in l[:60]), "queries": nq, "mismatches": len(mism),
         "distinct_tables": distinct,
-        "distribution": "stsc 1-5 entries x 1-3 chunks x 1-4 samples/chunk (decode or AddEntry path, 30% varying description ids); "
-                        "stts/ctts 1-6 runs (ctts v0/v1 60%, decode or AddSampleCountsAndOffset path); stsz uniform 25%; stco/co64; "
-                        "stss 70% (density 0/10/30/100%); sdtp 40%; 10% near-2^32 values; 4% zero deltas; 12 single-fault mutations",
+        "distribution": "stsc 1-5 entries x 1-3 chunks x 1-4 samples/chunk (30% varying description ids); "
+                        "stts/ctts 1-6 runs (ctts v0/v1 60%); stsz uniform 25%; stco/co64; "
+                        "stss 70% (density 0/10/30/100%); sdtp 40%; 10% near-2^32 values; 4% zero deltas; 12 single-fault mutations; "
+                        "build history per table: ctts and stsc each 40% empty box + calls, 20% decoder only, 40% decoded prefix (0..n rows) "
+                        "+ calls; ctts rows split into 1-4 AddSampleCountsAndOffset calls (12% empty calls); stsc one AddEntry per row, 30% a "
+                        "SetSingleSampleDescriptionID after a constant-id prefix whose ids were scrambled before (2/3); malformed stream: 50% "
+                        "a refused call (unequal lengths / firstChunk != 1 on an empty box) in the history; plain boxes 50% literal, 50% "
+                        "decoder (sdtp also CreateSdtpBox); 2 fixed cases: the histories of C09Theorems.v",
+        "builder_calls": sum(l.count(" bc") + l.count(" bs") for l in lines),
     }
     ctx.cov["samples"] += [l[:300] for l in lines[:2]] + [l[:300] for l in lines[-2:]]
     ctx.log("correspondence: %d tables, %d queries, %d mismatches" % (len(lines), nq, len(mism)))
@@ -122,10 +146,12 @@ def run(ctx):
                        "model_says": mism[0][:2000]},
                       "model/implementation disagree on %d tables, first: %s" % (len(mism), mism[0][:160]), no_input=True)
     ctx.proof_violation_if_broken(pr, "c09 search: %d evaluations, no failing input" % evals)
-    ctx.cov["rule"] = ("corr: %d generated tables (valid) + %d single-fault malformed ones, every query on every sample number 0..N+2, "
+    ctx.cov["rule"] = ("corr: %d generated tables (valid) + %d single-fault malformed ones, each built by a random builder history (cache "
+                       "fields compared after every call), every query on every sample number 0..N+2, "
                        "2^31, 2^32-1, every chunk 0..C+2, every interval (N<=16, else all prefixes/suffixes/singletons + 200 random) and "
                        "every time (T<=64, else every sample start +-1); distinct = distinct table encodings; search: same enumeration "
-                       "in range against the harness's own expansion" % (n, n // 2))
+                       "in range against the harness's own expansion, boxes built by a random history (thorough: the real files' tables also "
+                       "rebuilt through the builders)" % (n, n // 2))
 
 
 def replay(ctx, path):
